@@ -116,6 +116,11 @@ class Scheme:
                     if v is c.version or (v.string == c.version.string):
                         pos = i
                         break
+                if pos is None:
+                    for i, v in enumerate(self.lad):
+                        if v == c.version and not (v < c.version) and not (c.version < v):
+                            pos = i
+                            break
                 out.append((NAME[c.comparator], pos))
         return out
 
